@@ -26,7 +26,10 @@
                   array and skips the work when it already holds that very array)
      BoxCache     "none": aabb() computes the world box on every call (library); "by_pose_value": the box is kept and
                   returned again while body2origin_ compares equal to the pose it was computed for - wrong, because
-                  express_in rewrites the vertices (aabb, query as body 1, moved back to the old pose value, aabb)
+                  express_in rewrites the vertices (aabb, query as body 1, moved back to the old pose value, aabb);
+                  "until_update": the box is kept until express_in or update_pose resets it - wrong, because the pose is
+                  also changed by assigning body2origin_ or writing into it, as the library's own examples and tests do
+                  (aabb, move, aabb)
      TreeRule     when aabb_tree is rebuilt: "none" = only if unset (library); "aabbs" = also if aabbs unset
      DetailsFirst contact_forces(return_details=True): make_details rewrites the contact points and forces of the
                   ContactSurface IN PLACE into the world frame; the library accumulates the wrenches first (FALSE).
@@ -88,7 +91,8 @@ ContactForces(b1, b2, bp, det) ==
                      \/ (DetailsFirst /\ det))
         /\ pval' = [pval EXCEPT ![b1] = pval[b2]]
         /\ vgen' = [vgen EXCEPT ![b1] = IF skip \/ pval[b1] = pval[b2] THEN vgen[b1] ELSE vgen[b1] + 1]
-        /\ UNCHANGED <<ver, boxc>>
+        /\ boxc' = IF BoxCache = "until_update" THEN [boxc EXCEPT ![b1] = NoBox] ELSE boxc     \* express_in resets the kept box
+        /\ UNCHANGED ver
 
 (* the user moves a body by giving it another pose: in place (mutating the pose array) or update_pose(new array).
    The vertices keep their numbers, so the new pose DEFINES the new world placement; this is possible whatever frame
@@ -125,8 +129,9 @@ Inspect(b) ==
 (* the user reads b.aabb(): the box of vertices_ taken to the world through body2origin_ *)
 Aabb(b) ==
   /\ Step([op |-> "aabb", b1 |-> b, b2 |-> b, bp |-> "-", det |-> FALSE, how |-> "-", back |-> FALSE])
-  /\ IF BoxCache = "by_pose_value" /\ boxc[b] # NoBox /\ boxc[b][1] = pval[b]
-     THEN stale' = (boxc[b][2] # vgen[b] \/ vfr[b] # ofr[b]) /\ UNCHANGED boxc       \* the kept box is returned
+  /\ IF \/ BoxCache = "by_pose_value" /\ boxc[b] # NoBox /\ boxc[b][1] = pval[b]
+        \/ BoxCache = "until_update" /\ boxc[b] # NoBox
+     THEN stale' = (boxc[b][1] # pval[b] \/ boxc[b][2] # vgen[b] \/ vfr[b] # ofr[b]) /\ UNCHANGED boxc       \* the kept box is returned
      ELSE /\ stale' = (vfr[b] # ofr[b])
           /\ boxc' = [boxc EXCEPT ![b] = IF BoxCache = "none" THEN NoBox ELSE <<pval[b], vgen[b]>>]
   /\ UNCHANGED <<ver, vfr, ofr, arr, cache, pval, vgen>>
